@@ -200,10 +200,27 @@ static std::string sets(S* m, const Toks& t, const K& kk)
 	return "bad-op";
 }
 
+// ds initasg s k1 j1 [k2 j2 [k3 j3]] :  d = { {k1, d[j1]}, {k2, d[j2]}, ... }   (Dic::operator=(initializer_list<KV>):
+// KV holds the value BY REFERENCE, here a reference to one of the map's own values)
+static std::string dsInit(const Toks& t)
+{
+	size_t n = t.size();
+	if (n != 5 && n != 7 && n != 9) return "bad-op";
+	Dic<String>& d = DS[slot(t[2])];
+	int m = (int)(n - 3) / 2;
+	String k[3], j[3];
+	for (int i = 0; i < m; i++) { parse(t[3 + 2 * i], k[i]); parse(t[4 + 2 * i], j[i]); }
+	if (m == 1) d = { {*k[0], d[j[0]]} };
+	else if (m == 2) d = { {*k[0], d[j[0]]}, {*k[1], d[j[1]]} };
+	else d = { {*k[0], d[j[0]]}, {*k[1], d[j[1]]}, {*k[2], d[j[2]]} };
+	return "ok " + str(d.length());
+}
+
 static std::string step(const Toks& t)
 {
 	if (t.size() < 2) return "bad-op";
 	const std::string& kind = t[0];
+	if (kind == "ds" && t[1] == "initasg") return dsInit(t);
 	if (kind == "mi") return ordered(MI, t, int(), int());
 	if (kind == "ds") return ordered(DS, t, String(), String());
 	if (kind == "hi") return hashed(HI, t, int(), int());
